@@ -33,14 +33,18 @@ PROPS = {
     'C09': dict(
         title='The filter parser is total',
         verus=[('u_filter', [r'^Scanner::', r'^parse_', r'^is_unit_char$', r'^is_partial_date$', r'^as_date$', r'^Lexer::',
-                             r'^LexerToken::', r'^Parser::'])],
+                             r'^LexerToken::', r'^Parser::']),
+               ('u_weval', [r'^WildcardEq::eval$', r'^Ref::<PartialEq>::eq$'])],
         kani=[],
         witness='filter',
         design_ref='DESIGN.md section 4, C09',
         level_text=('Proof (Verus, unbounded): panic-freedom and termination of the filter lexer and parser (and the Zinc '
                     'scanner/scalar parsers they reuse) for all byte strings; recursion through parentheses bounded by the '
-                    'nesting budget (decreases MAX_NESTING_DEPTH - depth).'),
-        not_decided=('Termination of evaluation (WildcardEq::eval ref-chain loop, Relation::eval through the namespace); '
+                    'nesting budget (decreases MAX_NESTING_DEPTH - depth). Evaluation: the ref-chain loop of WildcardEq::eval (`id *== @ref`) terminates '
+                    'for every resolver that answers for finitely many ref ids, whatever cycles the refs form: each turn that does not leave '
+                    'the loop adds to the visited set an id the resolver knows and that was not there (decreases |known ids| - |visited|).'),
+        not_decided=('Termination of the other evaluators (And/Or/Cmp/Has/Missing are loop-free calls into the resolver; Relation::eval goes through the namespace); '
+                     'a resolver that invents a fresh record for every ref (infinitely many ids) is outside the termination claim; '
                      'the reader is '
                      'assumed to fail only at end of input (filters are parsed from in-memory strings); '
                      'c_api::haystack_filter_parse.'),
@@ -121,23 +125,32 @@ PROPS = {
     ),
     'C05': dict(
         title='Hayson JSON conforms to the Project Haystack JSON encoding',
-        verus=[('u_getters', [r'^parse_ref$', r'^parse_symbol$', r'^parse_uri$', r'^parse_coord$', r'^Dict::get_str$', r'^Dict::get_num$'])],
+        verus=[('u_getters', [r'^parse_ref$', r'^parse_symbol$', r'^parse_uri$', r'^parse_coord$', r'^Dict::get_str$', r'^Dict::get_num$']),
+               ('u_jenc', [r'::serialize$', r'^jv_'])],
         kani=[dict(harness='k_json_visit_numbers', klass='complete', schema='raw', family='json-visit', target='JsonValueDecoderVisitor::visit_{i8..u64,f64}'),
               dict(harness='k_json_visit_bool_null', klass='complete', schema=['bool'], family=None, target='JsonValueDecoderVisitor::visit_bool/visit_unit'),
               dict(harness='k_json_scalar_traces', klass='complete', schema=['u8', 'f64', 'f64'], family=None, target='Serialize for Marker/Na/Remove/Coord/Symbol/Uri/Ref/XStr'),
               dict(harness='k_json_number_exact', klass='complete', schema=['f64'], family='json-number', target='<Number as Serialize>::serialize'),
               dict(harness='k_json_number_unit_trace', klass='complete', schema=['f64'], family='json-number', target='<Number as Serialize>::serialize (with unit)')],
-        witness=None,
+        witness='enum:hayson-roundtrip',
         design_ref='DESIGN.md section 4, C05',
-        level_text=('Proof (Kani/CBMC) of the writer side for scalars: the serializer call trace of Marker, NA, Remove, Coord (all f64), '
+        level_text=('Proof (Verus, unbounded) of the writer side for every kind: jv_value is the Hayson table written from the specification as a '
+                    'recursive function from values to JSON trees (null/bool/string as plain JSON; {"_kind":"marker"|"na"|"remove"}; ref with val and '
+                    'optional dis; uri/symbol/date/time with val; dateTime with val and, exactly when the value is not UTC, tz; coord with lat/lng; '
+                    'xstr with type/val; list as array; dict as object; grid with _kind, meta (an empty object when absent), cols (name, meta only '
+                    'when present) and rows), and the real body of every Serialize impl -- Marker, Na, Remove, Ref, Uri, Symbol, Date, Time, DateTime, '
+                    'Coord, XStr, Column, Dict, Grid and the Value dispatcher with its list loop -- is proved to hand exactly that tree to the '
+                    'serializer, member by member and in order, against a model of serde\'s data model (rule R20). '
+                    'Proof (Kani/CBMC) of the writer side for scalars: the serializer call trace of Marker, NA, Remove, Coord (all f64), '
                     'Symbol, Uri, Ref (with and without dis), XStr and Number (all f64, with and without unit) uses exactly the "_kind" '
                     'values and member names of the Hayson table (typed into the harness from the specification), in a map of the stated size. '
                     'Reader side (Verus, real bodies): parse_ref / parse_symbol / parse_uri / parse_coord succeed exactly when the members the '
                     'table requires (val; lat and lng) are present with the right kind, and build the value from exactly those members (dis optional).'),
         not_decided=('Reader side: member-order independence of visit_map (generic over serde::de::MapAccess); parse_xstr (this Verus crashes on a local named r#type), parse_number (closures capturing the dict), parse_date/time/datetime (chrono), parse_grid (iterator adapters); '
-                     'list/dict/grid layout; Date/Time/DateTime text; JSON number spellings (serde_json); payload strings are concrete '
-                     '2-byte strings (the trace shape does not depend on them).'),
-        technique='contract-based deductive verification: Kani harnesses on the real Serialize impls with a recording Serializer',
+                     'Date/Time/DateTime text (chrono, uninterpreted); JSON number spellings and string escaping (serde_json); Number::serialize is '
+                     'trusted in the Verus unit and decided by the Kani harnesses; the model serializer (what serialize_map / serialize_entry / '
+                     'serialize_seq / end do) is an assumption about serde; Kani payload strings are concrete 2-byte strings.'),
+        technique='contract-based deductive verification: Verus postconditions on the real Serialize impls against a recursive Hayson specification + Kani harnesses with a recording Serializer',
     ),
     'C07': dict(
         title='Filter evaluation follows the Haystack filter semantics',
@@ -249,7 +262,8 @@ PROPS = {
     ),
     'C10': dict(
         title='Encoders never panic on any constructible value',
-        verus=[('u_enc', [r'::to_zinc$', r'::to_zinc_body$', r'::zinc_encode$', r'^list_to_zinc$', r'^write_dict_tags$', r'^write_str$', r'^write_quoted_str$', r'^Error::<From<std::io::Error>>::from$', r'^InnerGrid::'])],
+        verus=[('u_enc', [r'::to_zinc$', r'::to_zinc_body$', r'::zinc_encode$', r'^list_to_zinc$', r'^write_dict_tags$', r'^write_str$', r'^write_quoted_str$', r'^Error::<From<std::io::Error>>::from$', r'^InnerGrid::']),
+               ('u_jenc', [r'::serialize$'])],
         kani=[dict(harness='k_json_number_exact', klass='complete', schema=['f64'], family='json-number', target='<Number as Serialize>::serialize (panic-free over all f64)'),
               dict(harness='k_zinc_keywords', klass='complete', schema=['u8'], family=None, target='to_zinc of Marker/Remove/Na/Bool')],
         witness='enum:zinc-encode-panics',
@@ -258,10 +272,9 @@ PROPS = {
                     'Date, Time, DateTime, Str, Ref, Symbol, XStr, Coord, the shared quoted-string writer -- and the collection writers List, Dict, Grid '
                     '(incl. zero columns with rows, zero rows, nested grids), Column, write_dict_tags and the recursive Value dispatcher return Ok and cannot panic '
                     'for any field values (every String ranges over all strings incl. empty and non-ASCII); string slicing, where it occurs, '
-                    'carries std\'s panic condition as a precondition (rule R13). Kani: Number::serialize (Hayson) is panic-free over all f64.'),
+                    'carries std\'s panic condition as a precondition (rule R13). The Hayson Serialize impls of every kind except Number are proved panic-free on their real bodies (u_jenc). Kani: Number::serialize (Hayson) is panic-free over all f64.'),
         not_decided=('Uri::to_zinc (its `continue` inside `for` is outside this Verus; trusted: it only writes to a Vec); the collection writers '
-                     'are proved on index loops obtained from their enumerate() loops by rule R19 (trusted: Enumerate over a slice iterator yields (i, &v[i])); Display/to_string wrappers; serde Serialize impls '
-                     'other than Number; core::fmt itself (assumed not to fail or panic for the literals used); recursion depth.'),
+                     'are proved on index loops obtained from their enumerate() loops by rule R19 (trusted: Enumerate over a slice iterator yields (i, &v[i])); Display/to_string wrappers; the serializer behind the Serialize impls (serde_json); core::fmt itself (assumed not to fail or panic for the literals used); recursion depth.'),
     ),
     'C17': dict(
         title='The C API behaves exactly like the Rust API on the same values',
